@@ -121,6 +121,7 @@ type Built struct {
 	Salt      [32]byte // length-extended salt as the server will see it (zero if the bytes are too short)
 	Flags     Flags
 	Ts        uint64
+	Mutated   bool // derived from another request by mutate
 	Authentic bool // exact bytes of a genuine client request (every check passes but possibly the timestamp)
 	FirstOk   bool // first chunk (salt + fixed-length header) is an authentic one
 }
@@ -229,9 +230,10 @@ func (k *keys) build(kind string, salt []byte, ts uint64, pad int) (*Built, erro
 func (k *keys) mutate(base *Built, how string, pos int) (*Built, error) {
 	b := append([]byte(nil), base.Bytes...)
 	out := &Built{Ts: base.Ts, Flags: base.Flags, Salt: base.Salt}
-	if !base.Flags.Complete {
-		return nil, fmt.Errorf("cannot mutate a truncated request")
+	if !base.Flags.Complete || base.Mutated {
+		return nil, fmt.Errorf("cannot mutate a truncated or already mutated request (a second mutation could undo the first)")
 	}
+	out.Mutated = true
 	fc := k.firstChunkLen()
 	switch how {
 	case "flipfixed":
